@@ -15,6 +15,7 @@ import Dippy.Generated.Hook
 import Dippy.Model.Wrappers
 import Dippy.Model.ProcState
 import Dippy.Model.Statusline
+import Dippy.Model.Sql
 
 open Lean Dippy
 
@@ -463,6 +464,17 @@ def handle (j : Json) : R Json := do
     | some n => return Json.str (String.ofList n)
     | none => return Json.null
   | "sl_collapse" => return Json.str (String.ofList (SL.collapse (← str j "s").toList))
+  | "sql_strip" => return Json.str (String.ofList (Sql.stripQuoted (← str j "s").toList))
+  | "sql_multi" => return Json.bool (Sql.hasMultiple (← str j "s").toList)
+  | "sql_readonly" =>
+    match Sql.isReadonly (← str j "s").toList (← strList (j.getObjValD "xr")) (← strList (j.getObjValD "xw")) with
+    | some b => return Json.bool b
+    | none => return Json.null
+  | "sqlite_classify" =>
+    return Json.str (match Sql.sqliteClassify (← strList (j.getObjValD "tokens")) with
+      | .helpVersion => "sqlite3 help/version" | .readonlyMode => "sqlite3 (read-only mode)" | .initScript => "sqlite3 (init script)"
+      | .interactive => "sqlite3 (interactive)" | .readOnlyQuery => "sqlite3 (read-only query)" | .writeQuery => "sqlite3 (write query)"
+      | .unknownQuery => "sqlite3 (unknown query)")
   | "bashquote" => return Json.str (bashQuote (← str j "s"))
   | "bashjoin" => return Json.str (bashJoin (← strList (j.getObjValD "tokens")))
   | "shellwords" =>
